@@ -62,12 +62,14 @@ def main(args):
         if bad.ok or "AnswersFresh is violated" not in bad.stdout:
             vf.die_tooling("Concurrency.tla: the background mechanism no longer violates AnswersFresh — the model is vacuous")
         scheds = []
-        for uris, mc, mr in ([(["u1"], 2, 1), (["u1", "u2"], 2, 1)] if not thorough else [(["u1"], 3, 1), (["u1"], 2, 2), (["u1", "u2"], 3, 1)]):
+        # (documents, changes, requests): two requests around a change are needed for answers that the server caches
+        for uris, mc, mr in ([(["u1"], 2, 1), (["u1"], 1, 2), (["u1", "u2"], 2, 1)] if not thorough else [(["u1"], 3, 1), (["u1"], 2, 2), (["u1", "u2"], 3, 1), (["u1", "u2"], 2, 2)]):
             r = run.tlc("Concurrency", ccfg(uris, mc, mr, "current"), workers=8, timeout=2400)
-            scheds += [c["schedule"] for c in r.json]
-        cap = 400 if not thorough else 6000
-        if len(scheds) > cap:
-            scheds = run.rng.sample(scheds, cap)
+            fam = [c["schedule"] for c in r.json]
+            cap = 160 if not thorough else 2500        # per family, so that a small family is always replayed whole
+            if len(fam) > cap:
+                fam = run.rng.sample(fam, cap)
+            scheds += fam
         gated = []
         for s in scheds:
             for ws in (False, True):
